@@ -5,6 +5,9 @@ from tranpsim import boot
 
 ENGINES = {
 	'C05': ('tranpsim.c05', 'C05'),
+	'C06': ('tranpsim.c06', 'C06'),
+	'C14': ('tranpsim.c14', 'C14'),
+	'C15': ('tranpsim.c15', 'C15'),
 }
 
 
